@@ -66,6 +66,13 @@ pub const STARTS: &[Start] = &[
         len_quick: 6,
         len_thorough: 9,
     },
+    Start {
+        name: "perpetual check: every reply to the queen's checks is forced (single legal move)",
+        start: "6k1/5ppp/8/8/7q/8/R4PP1/6K1 b - - 0 1",
+        alphabet: &["h4e1", "g1h2", "e1h4", "h2g1", "h4h5", "h5h4", "a2a1", "a1a2", "g8f8", "f8g8"],
+        len_quick: 9,
+        len_thorough: 11,
+    },
 ];
 
 fn start_pos(start: &str) -> Pos {
@@ -121,6 +128,8 @@ pub static DEEP_DEPTH: AtomicU64 = AtomicU64::new(3);
 pub static DEEP_PAIRS: AtomicU64 = AtomicU64::new(1);
 
 pub struct Stats {
+    pub limited: AtomicU64,
+    pub long_histories: AtomicU64,
     pub deep_nodes: AtomicU64,
     pub deep_plain: AtomicU64,
     pub deep_draws: AtomicU64,
@@ -136,6 +145,15 @@ pub struct Stats {
 /// One case: optional earlier position command (`prev`), then `position start moves h`, then a
 /// depth-1 search. Returns the number of candidates judged.
 pub fn check_history(fl: &mut Option<Flounder>, cache: &RefCache, rep: &Report, st: &Stats, start: &str, prev: Option<&[Mv]>, h: &[Mv]) {
+    check_history_limit(fl, cache, rep, st, start, prev, h, None);
+    if prev.is_none() {
+        // the same case searched under a clock that never expires (10^7 ms of the node clock):
+        // a time limit that is not reached must not change what the search concludes
+        check_history_limit(fl, cache, rep, st, start, prev, h, Some(10_000_000));
+    }
+}
+
+pub fn check_history_limit(fl: &mut Option<Flounder>, cache: &RefCache, rep: &Report, st: &Stats, start: &str, prev: Option<&[Mv]>, h: &[Mv], limit_ms: Option<u64>) {
     let p0 = start_pos(start);
     let mut game = vec![p0.clone()];
     for m in h {
@@ -149,12 +167,22 @@ pub fn check_history(fl: &mut Option<Flounder>, cache: &RefCache, rep: &Report, 
         Some(pc) => format!("prev={} | cmd={}", pc, cmd),
         None => format!("cmd={}", cmd),
     };
+    let sig_tail = match limit_ms {
+        Some(ms) => format!("{} | time limit {} ms (never reached)", sig_tail, ms),
+        None => sig_tail,
+    };
+    let limit = limit_ms.map(std::time::Duration::from_millis);
+    if limit_ms.is_some() {
+        st.limited.fetch_add(1, Ordering::Relaxed);
+    }
     let mut args = vec!["c09-one".to_string(), "--start".into(), start.to_string(), "--moves".into(), h.iter().map(|m| m.uci()).collect::<Vec<_>>().join(" ")];
     if let Some(ph) = prev {
         args.push("--prev-moves".into());
         args.push(ph.iter().map(|m| m.uci()).collect::<Vec<_>>().join(" "));
     }
-    st.histories.fetch_add(1, Ordering::Relaxed);
+    if limit_ms.is_none() {
+        st.histories.fetch_add(1, Ordering::Relaxed);
+    }
 
     crate::timer::verif::set_node_clock(Some(1));
     if fl.is_none() {
@@ -176,13 +204,13 @@ pub fn check_history(fl: &mut Option<Flounder>, cache: &RefCache, rep: &Report, 
         f.verif_handle_command(&cmd);
         let b: Board = *f.verif_board();
         crate::search::verif::set_repetition_trace(true);
-        let (score, mv) = f.verif_searcher().find_best_move(&b, 1, None);
+        let (score, mv) = f.verif_searcher().find_best_move(&b, 1, limit);
         let trace = crate::search::verif::take_repetition_trace();
         // the same decision at every ply of a deeper search (the test precedes the table probe
         // in negamax, so whatever the depth-1 search cached cannot hide a node's decision)
         let deep_depth = DEEP_DEPTH.load(Ordering::Relaxed) as u8;
-        let deep = if deep_depth > 1 && (prev_cmd.is_none() || DEEP_PAIRS.load(Ordering::Relaxed) != 0) {
-            let _ = f.verif_searcher().find_best_move(&b, deep_depth, None);
+        let deep = if deep_depth > 1 && ((prev_cmd.is_none() && limit.is_none()) || DEEP_PAIRS.load(Ordering::Relaxed) != 0) {
+            let _ = f.verif_searcher().find_best_move(&b, deep_depth, limit);
             crate::search::verif::take_repetition_trace()
         } else {
             Vec::new()
@@ -284,7 +312,7 @@ pub fn check_history(fl: &mut Option<Flounder>, cache: &RefCache, rep: &Report, 
         let s = root.make(*m);
         let (strict, fide) = occurrences(&game, &s);
         let draw = strict >= 2;
-        st.candidates.fetch_add(1, Ordering::Relaxed);
+        st.candidates.fetch_add(limit_ms.is_none() as u64, Ordering::Relaxed);
         if (strict >= 2) != (fide >= 2) {
             st.ambiguous.fetch_add(1, Ordering::Relaxed);
             any_ambiguous = true;
@@ -293,9 +321,9 @@ pub fn check_history(fl: &mut Option<Flounder>, cache: &RefCache, rep: &Report, 
             continue;
         }
         if draw {
-            st.draws_expected.fetch_add(1, Ordering::Relaxed);
+            st.draws_expected.fetch_add(limit_ms.is_none() as u64, Ordering::Relaxed);
         } else if strict == 1 {
-            st.once_seen.fetch_add(1, Ordering::Relaxed);
+            st.once_seen.fetch_add(limit_ms.is_none() as u64, Ordering::Relaxed);
         }
         if let Some(got) = decided.get(&eng::key_of_pos(&s)) {
             if *got != draw {
@@ -333,7 +361,7 @@ pub fn check_history(fl: &mut Option<Flounder>, cache: &RefCache, rep: &Report, 
         return;
     }
     if let Some(want) = expected_best {
-        st.values_compared.fetch_add(1, Ordering::Relaxed);
+        st.values_compared.fetch_add(limit_ms.is_none() as u64, Ordering::Relaxed);
         let wc = classify(want);
         let gc = classify(score);
         if wc != gc {
@@ -366,6 +394,165 @@ pub fn check_history(fl: &mut Option<Flounder>, cache: &RefCache, rep: &Report, 
     }
 }
 
+
+// ---------------------------------------------------------------------------------------------
+// Long games. The enumerated histories above are at most a dozen plies long; a game record can
+// be hundreds. A long history is built for EVERY gap length g in 0..=G: the start position S
+// occurs twice, then g plies pass in which no position occurs twice (so the game is legal under
+// the fivefold rule however long it is), then the shortest way back to a predecessor of S through
+// positions not yet seen. At the root one move recreates S a third time (must be a draw), the
+// others lead to positions seen once or never (must not be). Two shapes: both occurrences of S
+// early (then the gap), or the gap split around the second occurrence.
+
+pub struct LongFamily {
+    pub name: &'static str,
+    pub start: &'static str,
+    /// squares of the pieces that wander at the start (they keep wandering; nothing else moves)
+    pub movers: &'static [&'static str],
+    /// squares the wandering pieces may move to (keeps the wander graph small: the way home is
+    /// found by breadth-first search over it)
+    pub region: &'static [&'static str],
+}
+
+pub const LONG_FAMILIES: &[LongFamily] = &[
+    LongFamily {
+        name: "K+R v k: rook on the a-c files, kings near e1 / e8",
+        start: "4k3/8/8/8/8/8/8/R3K3 w - - 0 1",
+        movers: &["a1", "e1", "e8"],
+        region: &["a1", "a2", "a3", "a4", "a5", "a6", "b1", "b2", "b3", "b4", "b5", "b6", "c1", "c2", "c3", "c4", "c5", "c6", "e1", "f1", "e2", "f2", "g1", "g2", "e8", "f8", "e7", "f7", "g8", "g7"],
+    },
+    LongFamily {
+        name: "start position, the four knights wander (castling rights stay)",
+        start: "startpos",
+        movers: &["b1", "g1", "b8", "g8"],
+        region: &["b1", "a3", "c3", "g1", "f3", "h3", "b8", "a6", "c6", "g8", "f6", "h6", "d5", "e5", "d4", "e4", "b5", "g5", "b4", "g4"],
+    },
+    LongFamily {
+        name: "queen ending, queens and kings wander",
+        start: "6k1/5ppp/8/8/8/8/1q3PPP/3Q2K1 w - - 0 1",
+        movers: &["d1", "g1", "b2", "g8"],
+        region: &["d1", "c1", "b1", "e1", "f1", "g1", "h1", "b2", "a2", "c2", "a1", "a3", "b3", "c3", "b4", "g8", "f8", "h8", "d2", "e2", "d3"],
+    },
+];
+
+/// Reversible moves of the wandering pieces: legal, no capture, by a piece that started on a
+/// mover square (tracked by following the piece), not a pawn move, not castling.
+fn wander_moves(p: &Pos, movers: &[u8], region: &[u8]) -> Vec<Mv> {
+    p.legal_moves().into_iter().filter(|m| movers.contains(&m.from) && region.contains(&m.to) && !p.is_capture(*m) && m.promo.is_none() && !(p.sq[m.from as usize].map(|x| x.1) == Some(crate::refchess::Kind::K) && (m.from as i32 % 8 - m.to as i32 % 8).abs() == 2)).collect()
+}
+
+fn follow(movers: &[u8], m: Mv) -> Vec<u8> {
+    movers.iter().map(|s| if *s == m.from { m.to } else { *s }).collect()
+}
+
+/// Shortest wander path from (p, movers) to the position with key `target`, never entering a
+/// position of `visited` (the target itself excepted). BFS, bounded.
+fn path_to(p: &Pos, movers: &[u8], region: &[u8], target: &EKey, visited: &std::collections::HashSet<EKey>, max_states: usize) -> Option<Vec<Mv>> {
+    use std::collections::{HashMap, VecDeque};
+    let k0 = eng::key_of_pos(p);
+    let mut prev: HashMap<EKey, (EKey, Mv)> = HashMap::new();
+    let mut q: VecDeque<(Pos, Vec<u8>, EKey)> = VecDeque::new();
+    q.push_back((p.clone(), movers.to_vec(), k0));
+    let mut seen: std::collections::HashSet<EKey> = std::collections::HashSet::new();
+    seen.insert(k0);
+    while let Some((cur, mv, ck)) = q.pop_front() {
+        if seen.len() > max_states {
+            return None;
+        }
+        for m in wander_moves(&cur, &mv, region) {
+            let n = cur.make(m);
+            let nk = eng::key_of_pos(&n);
+            if nk == *target {
+                let mut path = vec![m];
+                let mut k = ck;
+                while k != k0 {
+                    let (pk, pm) = prev[&k];
+                    path.push(pm);
+                    k = pk;
+                }
+                path.reverse();
+                return Some(path);
+            }
+            if visited.contains(&nk) || !seen.insert(nk) {
+                continue;
+            }
+            prev.insert(nk, (ck, m));
+            q.push_back((n, follow(&mv, m), nk));
+        }
+    }
+    None
+}
+
+/// g plies through positions never seen before (greedy, deterministic: the first wander move to
+/// an unseen position from which some further unseen move exists). Returns fewer if stuck.
+fn wander(p: &mut Pos, movers: &mut Vec<u8>, region: &[u8], visited: &mut std::collections::HashSet<EKey>, g: usize, out: &mut Vec<Mv>) -> usize {
+    let mut done = 0;
+    while done < g {
+        let mut chosen = None;
+        for m in wander_moves(p, movers, region) {
+            let n = p.make(m);
+            let nk = eng::key_of_pos(&n);
+            if visited.contains(&nk) {
+                continue;
+            }
+            let nm = follow(movers, m);
+            // keep a way on: some unseen continuation must exist
+            if wander_moves(&n, &nm, region).iter().any(|x| !visited.contains(&eng::key_of_pos(&n.make(*x)))) {
+                chosen = Some((m, n, nk, nm));
+                break;
+            }
+        }
+        match chosen {
+            None => break,
+            Some((m, n, nk, nm)) => {
+                out.push(m);
+                visited.insert(nk);
+                *p = n;
+                *movers = nm;
+                done += 1;
+            }
+        }
+    }
+    done
+}
+
+/// The long history for gap g and shape (false: S, cycle back to S, gap g, home; true: S, gap
+/// g/2, back to S, gap g - g/2, home). None if no such game exists within the search bounds.
+pub fn long_history(f: &LongFamily, g: usize, split: bool) -> Option<Vec<Mv>> {
+    let s0 = start_pos(f.start);
+    let sk = eng::key_of_pos(&s0);
+    let mut movers: Vec<u8> = f.movers.iter().map(|t| crate::refchess::parse_sq(t).unwrap()).collect();
+    let region: Vec<u8> = f.region.iter().map(|t| crate::refchess::parse_sq(t).unwrap()).collect();
+    let region = &region[..];
+    let mut p = s0.clone();
+    let mut visited = std::collections::HashSet::new();
+    visited.insert(sk);
+    let mut h: Vec<Mv> = Vec::new();
+    if split {
+        if wander(&mut p, &mut movers, region, &mut visited, g / 2, &mut h) < g / 2 {
+            return None;
+        }
+    }
+    // second occurrence of S
+    let back = path_to(&p, &movers, region, &sk, &visited, 400_000)?;
+    for m in &back {
+        p = p.make(*m);
+        movers = follow(&movers, *m);
+        visited.insert(eng::key_of_pos(&p));
+        h.push(*m);
+    }
+    let rest = if split { g - g / 2 } else { g };
+    if wander(&mut p, &mut movers, region, &mut visited, rest, &mut h) < rest {
+        return None;
+    }
+    // home: up to, not including, the move that recreates S
+    let home = path_to(&p, &movers, region, &sk, &visited, 400_000)?;
+    for m in &home[..home.len() - 1] {
+        h.push(*m);
+    }
+    Some(h)
+}
+
 pub fn run(tier: &str, seed: u64, out: &str) {
     let rep = Report::new("C09", tier, seed);
     let thorough = tier == "thorough";
@@ -378,6 +565,8 @@ pub fn run(tier: &str, seed: u64, out: &str) {
     DEEP_PAIRS.store(thorough as u64, Ordering::Relaxed);
     let cache = RefCache::new(200_000);
     let st = Stats {
+        limited: AtomicU64::new(0),
+        long_histories: AtomicU64::new(0),
         deep_nodes: AtomicU64::new(0),
         deep_plain: AtomicU64::new(0),
         deep_draws: AtomicU64::new(0),
@@ -441,8 +630,45 @@ pub fn run(tier: &str, seed: u64, out: &str) {
                 .set("third_occurrence_candidates", draws),
         );
     }
+    // ---- long games: every gap length
+    let gmax: usize = if thorough { 400 } else { 130 };
+    let mut long_parts = Vec::new();
+    for f in LONG_FAMILIES {
+        if rep.saturated() {
+            break;
+        }
+        let mut cases: Vec<(usize, bool)> = Vec::new();
+        for g in 0..=gmax {
+            cases.push((g, false));
+            cases.push((g, true));
+        }
+        let before = st.draws_expected.load(Ordering::Relaxed);
+        let built: Vec<Option<usize>> = par_map_init(
+            &cases,
+            || None,
+            |fl, (g, split)| match long_history(f, *g, *split) {
+                Some(h) => {
+                    check_history(fl, &cache, &rep, &st, f.start, None, &h);
+                    Some(h.len())
+                }
+                None => None,
+            },
+        );
+        let n_built = built.iter().filter(|x| x.is_some()).count();
+        let longest = built.iter().filter_map(|x| *x).max().unwrap_or(0);
+        st.long_histories.fetch_add(n_built as u64, Ordering::Relaxed);
+        let draws = st.draws_expected.load(Ordering::Relaxed) - before;
+        eprintln!("[C09] long games, {}: gaps 0..={} x 2 shapes, {} histories built (longest {} plies), {} third-occurrence candidates ({:.1}s)", f.name, gmax, n_built, longest, draws, rep.elapsed());
+        if n_built * 10 < cases.len() * 9 {
+            eprintln!("MACHINERY ERROR: C09 long games {:?}: only {} of {} histories could be built", f.name, n_built, cases.len());
+            std::process::exit(2);
+        }
+        long_parts.push(J::obj().set("family", f.name).set("start", f.start).set("gap_lengths", format!("every g in 0..={}", gmax)).set("shapes", 2u64).set("histories_built", n_built).set("longest_history_plies", longest).set("third_occurrence_candidates", draws));
+    }
     let h = st.histories.load(Ordering::Relaxed);
     let cov = J::obj()
+        .set("long_games", J::obj().set("rule", "for every gap length g: the start position occurs twice, g plies pass through positions that never occur twice (greedy deterministic wander of the listed pieces), then the shortest way back through unseen positions to a predecessor of the start position; at the root one move recreates it a third time. Two shapes (both occurrences before the gap / the gap split around the second occurrence)").set("families", J::Arr(long_parts)))
+        .set("searches_repeated_under_a_time_limit_that_is_never_reached", st.limited.load(Ordering::Relaxed))
         .set("states", h)
         .set("transitions", st.candidates.load(Ordering::Relaxed))
         .set("traces_validated_against_impl", h)
@@ -476,6 +702,8 @@ pub fn replay(start: &str, moves: &str, prev: Option<&str>) -> i32 {
     let rep = Report::new("C09", "quick", 0);
     let cache = RefCache::new(200_000);
     let st = Stats {
+        limited: AtomicU64::new(0),
+        long_histories: AtomicU64::new(0),
         deep_nodes: AtomicU64::new(0),
         deep_plain: AtomicU64::new(0),
         deep_draws: AtomicU64::new(0),
